@@ -183,6 +183,12 @@ def work(item):
                                 u = t[:p_] + r + t[p_ + 1:]
                                 _verdict(res, name, m, u, {}, True, (2, 'sub:%s+repair' % class_of(c), v_), None, counts)
                                 n += 1
+    # inputs on which validate() crashed while E2 searched for valid neighbours (check character repaired: code behind
+    # the checksum gate) are states of their own
+    if part == 0:
+        for (ename, esite), (t, kw_) in sorted(e2.crash_log.get(name, {}).items()):
+            _verdict(res, name, m, t, kw_, all(k in iv_opts for k in kw_), (2, 'e2-search', ''), None, counts)
+            n += 1
     # clock dimension
     readers = clock.calls()
     if readers:
